@@ -87,17 +87,17 @@ Qed.
 
 Definition safe (r : rstate) : Prop := match r with RRun g ts => Inv g ts | _ => False end.
 
-Lemma thread_ok_env : forall g i t on fed eof, thread_ok g i t -> (t_on t = true -> on = true) ->
-  thread_ok g i (t_env t on fed eof).
+Lemma thread_ok_env : forall g i t on fed eof pm, thread_ok g i t -> (t_on t = true -> on = true) ->
+  thread_ok g i (t_env t on fed eof pm).
 Proof.
-  intros g i t on fed eof [Hwf Halt HL Hon HK HKi HTok HTp HTr HKt HRdy HKn] Himp.
+  intros g i t on fed eof pm [Hwf Halt HL Hon HK HKi HTok HTp HTr HKt HRdy HKn] Himp.
   constructor; simpl; auto. intros H. destruct (Hon H). auto.
 Qed.
 
-Lemma Inv_env : forall g ts i t on fed eof, Inv g ts -> nth_error ts i = Some t -> (t_on t = true -> on = true) ->
-  Inv g (upd i (t_env t on fed eof) ts).
+Lemma Inv_env : forall g ts i t on fed eof pm, Inv g ts -> nth_error ts i = Some t -> (t_on t = true -> on = true) ->
+  Inv g (upd i (t_env t on fed eof pm) ts).
 Proof.
-  intros g ts i t on fed eof (Hall & Huniq & Hholder & Hg) Hi Himp.
+  intros g ts i t on fed eof pm (Hall & Huniq & Hholder & Hg) Hi Himp.
   split; [|split; [|split]]; auto.
   - intros j tj Hj. destruct (nth_error_upd_inv _ _ _ _ _ _ _ Hi Hj) as [[-> ->]|[Hne Hj']]; auto.
     apply thread_ok_env; auto.
@@ -130,7 +130,8 @@ Qed.
 Lemma apply_safe : forall c r l, safe r -> safe (apply c r l).
 Proof.
   intros c [g ts| |] l Hs; simpl in *; auto.
-  destruct l as [i ch|i|i|i| | |]; simpl.
+  destruct l as [i ch|i|i|i| | | |i b]; simpl.
+  8:{ destruct (nth_error ts i) as [t|] eqn:Ei; simpl; auto. eapply Inv_env; eauto. }
   - destruct (nth_error ts i) as [t|] eqn:Ei; simpl; auto.
     pose proof (step_sound c g ts i t ch Hs Ei) as H. unfold step_post in H.
     destruct (step c g i t ch); simpl; auto.
@@ -253,7 +254,8 @@ Proof.
       destruct r as [g1 ts1| |]; [exfalso; eapply Hr; eauto| |]; simpl; apply IH'; auto. }
     destruct (apply c (RRun g ts) l) as [g1 ts1|k|k] eqn:Ea.
     + assert (E1 : g_name g1 = g_name g /\ g_query g1 = g_query g).
-      { destruct l as [i ch|i|i|i| | |]; simpl in Ea.
+      { destruct l as [i ch|i|i|i| | | |i b]; simpl in Ea.
+        8:{ destruct (nth_error ts i); inversion Ea; subst; auto. }
         - destruct (nth_error ts i) as [t|]; [|inversion Ea; subst; auto].
           unfold step in Ea. destruct (negb (t_on t)); [inversion Ea; subst; auto|].
           destruct (t_res t); [inversion Ea; subst; auto|].
@@ -347,7 +349,7 @@ Proof. vm_compute. repeat split; reflexivity. Qed.
 (* ---- pools of arbitrary well-formed programs (the paths generated from session.go) ------------------------------- *)
 
 Definition thread_of (ops : list op) : thread :=
-  {| t_ops := ops; t_alt := None; t_on := false; t_holds := false; t_fed := false; t_eof := false;
+  {| t_ops := ops; t_alt := None; t_on := false; t_holds := false; t_fed := false; t_eof := false; t_pmgo := true;
      t_name := []; t_query := []; t_cat := None; t_pm := None; t_wrote := []; t_snap := None; t_res := None;
      t_abs := abs0 |}.
 
